@@ -188,6 +188,15 @@ class Driver:
             t.canonical_form(op[1], mode=MODES[op[2]])
         elif k == "move":
             t.move_orthogonalization_center(op[1], mode=MODES[op[2]])
+        elif k == "ensure":
+            t.ensure_orth_center(op[1], mode=MODES[op[2]])
+        elif k == "ensure_root":
+            t.ensure_root_orth_center(mode=MODES[op[2]])
+        elif k == "scramble":
+            shape = tuple(copy.deepcopy(t).tensors[op[1]].shape)
+            x = self._rand(shape)
+            t.replace_tensor(op[1], x)
+            self.atoms.append(np.array(x))
         else:
             raise ValueError(k)
 
@@ -243,6 +252,12 @@ def coq_cop(op, idm):
         return f"Canon {coq_nat(idm(op[1]))} {COQ_MODE[op[2]]}"
     if op[0] == "move":
         return f"Move {coq_nat(idm(op[1]))} {COQ_MODE[op[2]]}"
+    if op[0] == "scramble":
+        return f"Scramble {coq_nat(idm(op[1]))}"
+    if op[0] == "ensure":
+        return f"Ensure {coq_nat(idm(op[1]))} {COQ_MODE[op[2]]}"
+    if op[0] == "ensure_root":
+        return f"EnsureRoot {COQ_MODE[op[2]]}"
     return "Base (" + coq_op(op, idm) + ")"
 
 
